@@ -251,6 +251,9 @@ def run(tier, replay=None):
     from . import validators, subtag_api
     validators.run_all(common.program('K0'), rep, roles_wanted={'Language', 'Script', 'Region', 'Variant'})
     subtag_api.language_empty(common.program('K0'), rep, validators.load_roles())
+    # the feature that selects this code must be reachable from the crate a user enables it on (manifest wiring)
+    from .. import features
+    features.check(rep)
     rep.explanation = ('(a) the four direction constants equal, as sets, the independent derivation from the 710 layout files and are pairwise disjoint (data rules); '
                        '(b) character_direction is read from MIR as a decision list whose atoms are all interpretable (presence, membership in a direction constant, outcome of '
                        'maximize(language, None, region)); variants are never read; (c) the checker applies that list, with its own model of maximize built from likelySubtags.json, '
